@@ -234,13 +234,22 @@ Theorem C11_gen_cross_support_eq : forall nr nc len inten I IM,
     P.arms_arr C nr nc (cross_support nr nc I len inten).
 Proof. exact (P.gen_cross_support G.cross_support eq_refl). Qed.
 
-(* the evaluator computes with unbounded integers while the arms are stored in an int16 array:
-   the store is exact as soon as cbca_distance <= 32768 or both image sides are <= 32768 *)
-Theorem C11_gen_arms_fit_int16 : forall nr nc len inten I r c k,
+(* the evaluator computes with unbounded integers while the arms are stored in an int32 array:
+   the store is exact as soon as cbca_distance <= 2^31 or both image sides are <= 2^31 (an arm
+   is at most max(1, cbca_distance - 1) pixels long and stays inside the image) *)
+Theorem C11_gen_arms_fit_int32 : forall nr nc len inten I r c k,
   1 <= len -> 0 <= r < nr -> 0 <= c < nc -> 0 <= k < 4 ->
-  len <= 32768 \/ (nr <= 32768 /\ nc <= 32768) ->
-  0 <= P.arm_at (cross_support nr nc I len inten r c) k <= 32767.
-Proof. exact P.arms_fit_int16. Qed.
+  len <= 2147483648 \/ (nr <= 2147483648 /\ nc <= 2147483648) ->
+  0 <= P.arm_at (cross_support nr nc I len inten r c) k <= 2147483647.
+Proof. exact P.arms_fit_int32. Qed.
+
+(* regression: the defect repaired by the second `fix:` commit of the tree under test.  On a flat
+   unmasked row of 33000 pixels with cbca_distance = 40000 the left arm of the last pixel has 32999
+   pixels: it does not fit the int16 cell the code stored it in (the compiled kernel returned
+   -32537, and the aggregated costs of the 464 pixels with such an arm were wrong); it fits int32. *)
+Example C11_int16_witness :
+  aL (cross_support 1 33000 (fun _ _ => Some 7%Q) 40000 (5 # 1) 0 32999) = 32999 /\ 32767 < 32999 <= 2147483647.
+Proof. exact P.int16_witness. Qed.
 
 (* cbca_step_1 as written in the source = Model.step1 (cv: NaN where the cost is not computable) *)
 Theorem C11_gen_step1_eq : forall nr nc cv A,
@@ -383,7 +392,7 @@ Print Assumptions C11_gen_step2_canonical.
 Print Assumptions C11_gen_step3_canonical.
 Print Assumptions C11_gen_step4_canonical.
 Print Assumptions C11_gen_cross_support_eq.
-Print Assumptions C11_gen_arms_fit_int16.
+Print Assumptions C11_gen_arms_fit_int32.
 Print Assumptions C11_gen_step1_eq.
 Print Assumptions C11_gen_step2_eq.
 Print Assumptions C11_gen_step3_eq.
